@@ -130,7 +130,15 @@ func checkC09(c *Check) {
 			nameV := vExtract(1, vIs(next))
 			reV := vExtract(2, vIs(next))
 			hp := vParam(m, 1)
-			getV := vCall("(net/http.Header).Get", hp, nameV)
+			// header.Get(name), or its definition textproto.MIMEHeader(header).Get(name)
+			hpConv := func(v ssa.Value) bool {
+				if hp(v) {
+					return true
+				}
+				cv, ok := strip(v).(*ssa.ChangeType)
+				return ok && hp(cv.X)
+			}
+			getV := vOr(vCall("(net/http.Header).Get", hp, nameV), vCall("(net/textproto.MIMEHeader).Get", hpConv, nameV))
 			mayBeTrue := func(in ssa.Instruction) bool {
 				r, ok := in.(*ssa.Return)
 				return ok && len(r.Results) == 1 && !vConstBool(false)(r.Results[0])
@@ -144,7 +152,7 @@ func checkC09(c *Check) {
 			}
 			cont := func(in ssa.Instruction) bool { return in == ssa.Instruction(next) || mayBeTrue(in) }
 			nonEmpty := union(
-				edgesWhere(m, cCmp(token.EQL, getV, vConstStr("")), false),
+				edgesWhere(m, cEmptyStr(getV), false),
 				edgesWhere(m, cCmp(token.GTR, vLen(getV), vConstInt(0)), true),
 			)
 			in, path = Query{Fn: m, Cut: union(nonEmpty, exhausted)}.After(next, cont)
